@@ -417,3 +417,32 @@ CASES["C18"] = [
     ("twin: rescale statements reordered", "twin", K2L, "        zp_in = ConstantOp.from_int_and_width(op.input_zp.value.data, builtin.IntegerType(32))\n        zp_out = ConstantOp.from_int_and_width(op.output_zp.value.data, builtin.IntegerType(32))", "        zp_out = ConstantOp.from_int_and_width(op.output_zp.value.data, builtin.IntegerType(32))\n        zp_in = ConstantOp.from_int_and_width(op.input_zp.value.data, builtin.IntegerType(32))", []),
     ("twin: equivalence via all()", "twin", L2K, "    for op_a, op_b in zip(block_a.ops, block_b.ops, strict=True):\n        if type(op_a) is not type(op_b):\n            return False\n\n    return True", "    for op_a, op_b in zip(block_a.ops, block_b.ops, strict=True):\n        if not type(op_a) is type(op_b):\n            return False\n    return True", []),
 ]
+
+STREAMD = "snaxc/dialects/snax_stream.py"
+SNAXD = "snaxc/dialects/snax.py"
+EXTINIT = "snaxc/accelerators/streamers/extensions/__init__.py"
+CANONA = "snaxc/util/canonicalize_affine.py"
+PACKF = "snaxc/util/pack_bitlist.py"
+STREAMERSF = "snaxc/accelerators/streamers/streamers.py"
+
+CASES["C19"] = [
+    ("printer: ts before ub", "mutant", STREAMD, '            printer.print_string("ub = [")\n            printer.print_list(self.upper_bounds, lambda attr: printer.print_int(attr.data))\n            printer.print_string("], ts = [")\n            printer.print_list(self.temporal_strides, lambda attr: printer.print_int(attr.data))',
+     '            printer.print_string("ts = [")\n            printer.print_list(self.temporal_strides, lambda attr: printer.print_int(attr.data))\n            printer.print_string("], ub = [")\n            printer.print_list(self.upper_bounds, lambda attr: printer.print_int(attr.data))', ["C19.stride-pattern-io"]),
+    ("parser returns (ts, ub, ss)", "mutant", STREAMD, "            return (ub, ts, ss)", "            return (ts, ub, ss)", ["C19.stride-pattern-io"]),
+    ("printer: ub prints temporal strides", "mutant", STREAMD, '            printer.print_string("ub = [")\n            printer.print_list(self.upper_bounds,', '            printer.print_string("ub = [")\n            printer.print_list(self.temporal_strides,', ["C19.stride-pattern-io"]),
+    ("stride canon: fold compares running extent", "mutant", STREAMD, "            elif len(new_upper_bounds) and new_upper_bounds[-1] * new_temporal_strides[-1] == ts:", "            elif len(new_upper_bounds) and upper_bounds[0] * temporal_strides[0] == ts:", ["C19.stride-canon"]),
+    ("stride canon: bound 2 dropped", "mutant", STREAMD, "            elif ub == 1:\n                pass", "            elif ub <= 2:\n                pass", ["C19.stride-canon"]),
+    ("HasByteMask removed from the registry", "mutant", EXTINIT, "    HasByteMask().name: HasByteMask,\n", "", ["C19.opt-registry"]),
+    ("two options share a name", "mutant", STREAMERSF, '    name = "bm"\n', '    name = "b"\n', ["C19.opt-registry"]),
+    ("config parser reads spat before temp", "mutant", SNAXD, '                parser.parse_keyword("temp")', '                parser.parse_keyword("spat")', ["C19.streamer-config-io"]),
+    ("canonicalize_expr returns after one pass", "mutant", CANONA, "    if new_expr == expr:\n        return new_expr\n\n    return canonicalize_expr(new_expr)", "    return new_expr", ["C19.idempotence-shape"]),
+    ("x * 0 treated like x * 1", "mutant", CANONA, "        if expr.rhs.value == 1:\n            return expr.lhs\n        # turn (a + b) * cst", "        if expr.rhs.value == 0:\n            return expr.lhs\n        # turn (a + b) * cst", ["C19.rewrite-identities"]),
+    ("distribution drops the factor of b", "mutant", CANONA, "new_expr = (expr.lhs.lhs * expr.rhs) + (expr.lhs.rhs * expr.rhs)", "new_expr = (expr.lhs.lhs * expr.rhs) + expr.lhs.rhs", ["C19.rewrite-identities"]),
+    ("constant folding of add uses product", "mutant", CANONA, "return AffineConstantExpr(expr.lhs.value + expr.rhs.value)", "return AffineConstantExpr(expr.lhs.value * expr.rhs.value)", ["C19.rewrite-identities"]),
+    ("x mod 1 -> x", "mutant", CANONA, "        if expr.rhs.value == 1:\n            return AffineConstantExpr(0)", "        if expr.rhs.value == 1:\n            return expr.lhs", ["C19.rewrite-identities"]),
+    ("x floordiv c -> x for every c", "mutant", CANONA, "        # division by 1 can be omitted\n        if expr.rhs.value == 1:\n            return expr.lhs", "        # division by 1 can be omitted\n        if expr.rhs.value >= 1:\n            return expr.lhs", ["C19.rewrite-identities"]),
+    ("pack: value shifted by next offset", "mutant", PACKF, "        yield (shift := arith.ShLIOp(value, offset))", "        yield (shift := arith.ShLIOp(offset, value))", ["C19.pack"]),
+    ("pack: non-strict zip", "mutant", PACKF, "for int_val, int_off in zip(values, offsets, strict=True):", "for int_val, int_off in zip(values, offsets):", ["C19.pack"]),
+    ("twin: reassociation written with explicit constructor", "twin", CANONA, "        new_expr = expr.rhs + expr.lhs\n", "        new_expr = AffineBinaryOpExpr(AffineBinaryOpKind.Add, expr.rhs, expr.lhs)\n", []),
+    ("twin: a + 0 test spelled with not", "twin", CANONA, "        if expr.rhs.value == 0:\n            return expr.lhs", "        if not expr.rhs.value != 0:\n            return expr.lhs", []),
+]
